@@ -304,6 +304,24 @@ async def handshake_oracle(sim):
     if sim.wire.lost['c'] or sim.wire.lost['s']:
         return []
     probs = []
+    # an end is only cleaned up after it has seen the peer's CLOSE and answered it: once everything has been
+    # delivered the other end must be closed as well, unless it still holds unread data behind a paused reader
+    for cidx in range(len(sim.cch)):
+        sidx = sim.s_of_c.get(cidx)
+        if sidx is None:
+            continue
+        ends = {'c': sim.cch[cidx].get('sess'), 's': sim.sch[sidx].get('sess')}
+        if ends['c'] is None or ends['s'] is None:
+            continue
+        done = {k: any(x in ('lost0', 'lost1') for x in v.log) for k, v in ends.items()}
+        for x, y in (('c', 's'), ('s', 'c')):
+            if done[x] and not done[y] and 'made' in ends[y].log:
+                ch = ends[y].chan
+                unread = getattr(ch, '_recv_buf_len', None)
+                if unread == 0:
+                    probs.append(('handshake', f'channel {cidx}: the {x} end is closed and cleaned up, everything has been '
+                                               f'delivered, but the {y} end (no unread data) is still open: '
+                                               f'{getattr(ch, "_send_state", "?")}/{getattr(ch, "_recv_state", "?")}'))
     closing = {}
     for op in sim.ops:
         if op[0] in ('close', 'abort') and sim.has(op[1], op[2]):
